@@ -251,9 +251,16 @@ def reload_config(cmd, cfg) -> dict:
     out = {}
     try:
         stored = cfg.model_dump_json()
-        # the two places the code stores it: RunMeta.config (json.loads of the dump) and run_meta.config (the dump)
+        # the two places the code stores it: run_meta.config in the database (the dump itself, DBHandler.insert_run_meta)
+        # and RunMeta.config in META.json (built by BaseCommand.__init__, written through RunMeta.json())
         data = json.loads(stored)
-        again = cmd.CONFIG_TYPE(**data)
+        try:
+            meta = json.loads(cmd(cfg).run_meta.json())["config"]
+        except Exception as e:  # noqa: BLE001
+            out["meta_exc"] = f"{type(e).__name__}: {str(e)[:120]}"
+            meta = data
+        out["meta_equal"] = meta == data
+        again = cmd.CONFIG_TYPE(**meta)   # what Rerunner.main does with either of them
         out["dump_equal"] = again.model_dump_json() == stored
         diffs = []
         for name in type(cfg).model_fields:
@@ -722,6 +729,9 @@ def judge(ctx, plans, cases, reals, label):
                 ctx.disagree(f"reload-raises:{' '.join(case['cmd'])}", f"{' '.join(case['cmd'])}: CONFIG_TYPE(**json.loads(cfg.model_dump_json())) raises {real['reload_exc']}",
                              _replay(case), impl=real["reload_exc"], model="equal configuration", spec_violated=True, site="Rerunner.main / BaseCommand.__init__")
             else:
+                if not real.get("meta_equal", True) or "meta_exc" in real:
+                    ctx.disagree(f"meta-config-differs:{' '.join(case['cmd'])}", f"{' '.join(case['cmd'])}: RunMeta.config differs from the configuration dump "
+                                 f"{real.get('meta_exc', '')}", _replay(case), impl=real.get("meta_exc"), model="same JSON", spec_violated=True, site="BaseCommand.__init__")
                 if not real["dump_equal"] or real["field_diffs"]:
                     d = real["field_diffs"][0] if real["field_diffs"] else ["<dump>", "", ""]
                     dn = d[0]
